@@ -22,25 +22,29 @@ def quoteChars : List Char → List Char
 
 def quoteStr (s : String) : String := "\"" ++ String.ofList (quoteChars s.toList) ++ "\""
 
+/-- the least `k` (tried from `k` upwards, `fuel` times) for which `a · 10^k` is a whole number `m`: `(m, k)` -/
+def findScale (a : Rat) (k fuel : Nat) : Option (Nat × Nat) :=
+  match fuel with
+  | 0 => none
+  | fuel + 1 =>
+    let v := a * ((10 : Rat) ^ k)
+    if v.den == 1 then some (v.num.toNat, k) else findScale a (k + 1) fuel
+
+/-- the digits `ds` of `m` with the decimal point `k` places from the right, at least one digit on either side -/
+def pointAt (ds : List Char) (k : Nat) : List Char × List Char :=
+  if k == 0 then (ds, ['0'])
+  else if ds.length > k then (ds.take (ds.length - k), ds.drop (ds.length - k))
+  else (['0'], List.replicate (k - ds.length) '0' ++ ds)
+
 /-- positional decimal notation of a terminating decimal, with at least one fractional digit; `none` if not a decimal of ≤ 400 digits -/
 def positional (q : Rat) : Option String :=
   let neg := q < 0
   let a := if neg then -q else q
-  let rec findK (k fuel : Nat) : Option (Nat × Nat) :=
-    match fuel with
-    | 0 => none
-    | fuel + 1 =>
-      let v := a * ((10 : Rat) ^ k)
-      if v.den == 1 then some (v.num.toNat, k) else findK (k + 1) fuel
-  match findK 0 400 with
+  match findScale a 0 400 with
   | none => none
   | some (m, k) =>
-    let ds := (toString m).toList
-    let body :=
-      if k == 0 then String.ofList ds ++ ".0"
-      else if ds.length > k then String.ofList (ds.take (ds.length - k)) ++ "." ++ String.ofList (ds.drop (ds.length - k))
-      else "0." ++ String.ofList (List.replicate (k - ds.length) '0' ++ ds)
-    some ((if neg then "-" else "") ++ body)
+    let (ip, fp) := pointAt (Nat.toDigits 10 m) k
+    some (String.ofList ((if neg then ['-'] else []) ++ (ip ++ '.' :: fp)))
 
 /-- `str(value)` for the scalars `to_string` meets -/
 def scalarText (r : Raw) : Option String :=
